@@ -293,3 +293,22 @@ func (i *interpreter) sliceForVars(vs []int) (conj []*smt.Term, vars []int, hasU
 	sort.Ints(vars)
 	return
 }
+
+// fewValuesSolver: can t take at most MaxConcretise values?  Decided with up to two
+// solver calls (is there a third... no: we only ask whether a second value exists for
+// terms that are not cheaply enumerable; a term with two or more values is treated as
+// 'many' unless fewValues said otherwise).
+func (i *interpreter) fewValuesSolver(t *smt.Term) bool {
+	p := i.path
+	if p.model == nil || hasUF(t) {
+		return false
+	}
+	v := i.evaluator().Eval(t)
+	var other *smt.Term
+	if t.S.K == smt.SBool {
+		return true
+	}
+	other = i.ctx.Not(i.ctx.Eq(t, i.ctx.BVConst(t.S.W, v)))
+	r, _ := i.query(other)
+	return r == smt.Unsat
+}
